@@ -128,6 +128,14 @@ fn model_conflict(reqs: &[Req]) -> bool {
     false
 }
 
+/// For C15: aggregates two empty instance requirements named `a` then `b` and returns the
+/// import names that remain (None when a name is not a valid import name).
+pub(crate) fn aggregate_pair(a: &str, b: &str) -> Option<Result<Vec<String>, String>> {
+    let reqs: Vec<Req> = [a, b].iter().map(|n| Req { name: n.to_string(), funcs: BTreeMap::new(), kind: "instance", variant: 0 }).collect();
+    let decoded: Vec<Decoded> = reqs.iter().map(decode_req).collect::<Result<Vec<_>, _>>().ok()?;
+    Some(aggregate_all(&[0, 1], &decoded, &reqs).map(|agg| agg.imports().map(|(n, _)| n.to_string()).collect()))
+}
+
 fn aggregate_all(order: &[usize], decoded: &[Decoded], reqs: &[Req]) -> Result<TypeAggregator, String> {
     let mut agg = TypeAggregator::default();
     let mut cache = HashSet::new();
@@ -147,6 +155,8 @@ fn gen_reqs(rng: &mut Rng) -> Vec<Req> {
     let names = [
         "ns:lib/i0@1.0.0", "ns:lib/i0@1.1.0", "ns:lib/i0@1.2.5", "ns:lib/i0@2.0.0", "ns:lib/i0@0.3.1", "ns:lib/i0@0.3.2", "ns:lib/i0@1.10.0", "ns:lib/i0@0.3.10",
         "ns:lib/i0@0.0.1", "ns:lib/i0@0.0.2", "ns:lib/i0@1.0.0-rc.1", "ns:lib/i0", "ns:lib/i1@1.0.0", "plain-name", "other-name",
+        // other tracks whose key starts with the digits of a track above (1 / 10 / 12, 0.3 / 0.31)
+        "ns:lib/i0@10.0.0", "ns:lib/i0@12.1.0", "ns:lib/i0@0.31.0",
     ];
     let pool = ["f0", "f1", "f2", "f3", "f4"];
     // per-case base signature of every function; a conflicting contributor deviates from it
